@@ -412,6 +412,10 @@ def C04():
                          functions=["constructor + Message::write"], timeout=1500, mem_gb=12))
     jobs.append(MirJob("c04_mir_ntlm_authenticate_layout", "NTLM AUTHENTICATE token: every (Len, MaxLen, BufferOffset) addresses its field for all field lengths < 65536 and all flags; Version field consistent with the offset base (shared with C15)", mirjobs.authenticate_layout))
     jobs.append(MirJob("c04_mir_info_packet_counts", "Client Info: cbDomain/cbUserName/cbPassword equal the byte size of the UTF-16 buffers actually sent minus the 2-byte terminator, for every string (SMT on the lengths)", mirjobs.info_packet_counts))
+    jobs.append(MirJob("c04_mir_layouts", "56 record constructors (TPKT, X.224, GCC blocks, info packet, licence, share headers, finalisation PDUs, input events, 13 capability sets, NTLM messages): the (field, width, byte order, constant, optional / counted / fixed-size) sequence extracted from the MIR equals the structure transcribed from MS-RDPBCGR / MS-NLMP / T.123 / X.224",
+                       mirjobs.layout_tables))
+    jobs.append(MirJob("c04_mir_utf16_encoders", "String::to_unicode and nla::ntlm::unicode (every name, domain, user and password goes through one of them): every unit of str::encode_utf16 is written, unconverted, little-endian; confirmed against a from-the-definition UTF-16LE encoder on BMP and non-BMP text",
+                       mirjobs.utf16_encoders))
     jobs.append(MirJob("c04_mir_gcc_conference", "GCC conference create request: T.124 template step by step, connectPDU length equals the bytes written after it for every user-data size 128..32753 (SMT)",
                        mirjobs.gcc_conference))
     jobs.append(MirJob("c04_mir_emitter_lengths", "share_control_header / share_data_header / ts_confirm_active_pdu / capability_set: for every size of the variable part up to 65535 - K (SMT, z3 + cvc5): the length or count field equals that size + K, it is computed from the object actually sent, the size announced to a reader of the same layout is exactly that size and names that field, and the u16 arithmetic cannot overflow",
@@ -531,6 +535,8 @@ def C18():
                        mirjobs.component_options))
     jobs.append(MirJob("c18_mir_asn1_pairing", "nla/asn1.rs: every ASN1 implementation writes with its yasna primitive and reads with the inverse one (u32, bool, i64, octets, sequence, sequence-of, explicit and implicit tags), the value is not converted in between, both sides use the same tag field, children are visited in the same order, to_der/from_der/from_ber use the DER/BER entry points",
                        mirjobs.asn1_pairing))
+    jobs.append(MirJob("c18_mir_layouts", "the 56 record layouts the library reads and writes: field order, widths, byte order, checked constants, optional trailing fields and counted fields extracted from the MIR equal the reference structures; a difference is replayed by reading the reference encoding, comparing every field, writing it back and trying every optional-tail prefix",
+                       mirjobs.layout_tables))
     jobs.append(MirJob("c18_mir_gcc_conference", "GCC conference create request / response: the PER primitives and their constant arguments follow the T.124 template step by step (object identifier 0.0.20.124.0.1, H.221 keys Duca / McDn, node id base 1001), every primitive's result is tested, and the connectPDU length equals the bytes written after it for every user-data size 128..32753 (SMT, z3 + cvc5)",
                        mirjobs.gcc_conference))
     jobs.append(MirJob("c18_mir_version_table", "gcc::Version::from over every u32 (SMT): each wire value of the enum decodes to the variant that is written as that value, and no other value decodes to such a variant",
